@@ -18,6 +18,16 @@ func VerifDir() string {
 	return "/verif"
 }
 
+// OutDir is where evidence/ and replays/ are written: /verif, unless VERIF_OUT redirects them (the tools
+// that run checks against deliberately broken scratch trees do, so that the committed evidence is only
+// ever written by runs against /repo itself).
+func OutDir() string {
+	if d := os.Getenv("VERIF_OUT"); d != "" {
+		return d
+	}
+	return VerifDir()
+}
+
 func Seed() int {
 	n, _ := strconv.Atoi(os.Getenv("VERIF_SEED"))
 	return n
@@ -71,7 +81,7 @@ func Publish(rep *Report) int {
 	out := ProtoOut()
 	newViol := 0
 	printedKnown := map[string]bool{}
-	repDir := filepath.Join(VerifDir(), "replays", rep.Property)
+	repDir := filepath.Join(OutDir(), "replays", rep.Property)
 	if old, _ := filepath.Glob(filepath.Join(repDir, rep.Tier+"_*.json")); len(old) > 0 {
 		for _, f := range old {
 			os.Remove(f) // artefacts of earlier runs of this tier
@@ -145,8 +155,8 @@ func Publish(rep *Report) int {
 		"violations":  newViol,
 	}
 	b, _ := json.MarshalIndent(ev, "", " ")
-	os.MkdirAll(filepath.Join(VerifDir(), "evidence"), 0755)
-	if err := os.WriteFile(filepath.Join(VerifDir(), "evidence", rep.Property+".json"), append(b, '\n'), 0644); err != nil {
+	os.MkdirAll(filepath.Join(OutDir(), "evidence"), 0755)
+	if err := os.WriteFile(filepath.Join(OutDir(), "evidence", rep.Property+".json"), append(b, '\n'), 0644); err != nil {
 		EngineError("cannot write evidence: %v", err)
 	}
 	fmt.Fprintf(out, "%s %s: evaluations=%d nontrivial=%d states=%d transitions=%d validated=%d exhaustive=%v violations=%d known=%d wall=%.1fs\n",
